@@ -44,6 +44,8 @@ type FuncSpec struct {
 	NoInline bool
 	Inline   bool
 	Skip     string // not verified, with the reason (listed in evidence)
+	Raw      []rawClause
+	DefProps []string
 	Faults   []string // K1 kinds that are specified fault behaviour (run-time panics converted by a caller)
 	Asserts  []*AnchorClause
 	Sites    []*AnchorClause
@@ -55,6 +57,11 @@ type FuncSpec struct {
 
 func (s *FuncSpec) hasContract() bool {
 	return s != nil && (len(s.Requires) > 0 || len(s.Ensures) > 0 || len(s.Assumes) > 0 || s.Opaque || s.Trusted || s.Extern)
+}
+
+type rawClause struct {
+	word, rest string
+	line       int
 }
 
 type Clause struct {
@@ -164,6 +171,15 @@ func (S *Specs) parseFile(file, text string) {
 			} else {
 				cur.Props = strings.Fields(rest)
 			}
+		case "action":
+			// contract of a grammar action, named by its production; resolved to
+			// the extracted function by Program.bindActions
+			key := pkg + ".action " + strings.Join(strings.Fields(rest), " ")
+			cur = &FuncSpec{Key: key, File: file, Line: lineNo, DefProps: defProps}
+			if _, dup := S.Funcs[key]; dup {
+				S.errf(file, lineNo, "duplicate contract for %s", key)
+			}
+			S.Funcs[key] = cur
 		case "func", "extern":
 			name := rest
 			var params []string
@@ -242,6 +258,11 @@ func (S *Specs) parseFile(file, text string) {
 		default:
 			if cur == nil {
 				S.errf(file, lineNo, "clause %q outside a func block", word)
+				continue
+			}
+			if strings.Contains(cur.Key, ".action ") {
+				// parsed when the production (and its length) is known
+				cur.Raw = append(cur.Raw, rawClause{word, rest, lineNo})
 				continue
 			}
 			S.parseClause(file, lineNo, cur, word, rest)
